@@ -635,11 +635,19 @@ class Gen:
                      'dummy': self.rand_val(integral=False)}, ['S'])
         b = self.S[-1]
         elems = [a] + [rng.choice((a, b, rng.choice(self.S))) for _ in range(rng.randint(0, 2))] + [b]
+        if rng.random() < 0.5:
+            # whole and non-whole elements in any order and number (pairwise product trees see every pattern of pairs)
+            elems = [a, b] + [rng.choice((a, b, a, b, rng.choice(self.S))) for _ in range(rng.randint(1, 4))]
+            rng.shuffle(elems)
         if not self.try_op('mklist', elems, {}, ['L']):
             return
         x = self.L[-1]
         n = len(elems)
-        opn = rng.choice(('schur_prod', 'schur_prod', 'scalar_mul', 'matrix_prod', 'vector_add', 'vector_sub', 'in_prod'))
+        opn = rng.choice(('schur_prod', 'schur_prod', 'scalar_mul', 'matrix_prod', 'vector_add', 'vector_sub', 'in_prod',
+                          'prod', 'prod', 'sum'))
+        if opn in ('prod', 'sum'):
+            self.try_op(opn, [x], {}, ['S'])
+            return
         if opn == 'scalar_mul':
             self.try_op(opn, [a, x], {}, ['L'])
         elif opn == 'matrix_prod':
